@@ -10,7 +10,11 @@
 (*   reset  the element is reset after each of its requests                *)
 (*   yor    yield_on_remainder                                             *)
 (*   kind   "fc" fill/compute element, "fr" fill/request element,          *)
-(*          "run" run-only element, "both" run and fill/request            *)
+(*          "run" run-only element, "both" run and fill/request,           *)
+(*          "frc" fill/request element whose methods have other names      *)
+(*          (FillRequest(el, fill=.., request=.., reset_name=..)) and that *)
+(*          carries data attributes named run, fill, request, compute,     *)
+(*          reset                                                          *)
 (*   m      number of results the element yields per request               *)
 (*   pv     (run elements) additionally one result per value of the block  *)
 (*   take   (run elements) 0: the element's run consumes its whole flow;   *)
